@@ -4,7 +4,7 @@
 # (VERIF_REPO), then removes the worktree. Evidence files are restored afterwards.
 P="$1"; T="$2"; shift 2
 W=/tmp/wt-seed-$$
-git -C /repo worktree add --detach "$W" HEAD -q || exit 2
+/verif/tools/mkworktree.sh "$W" >/dev/null 2>&1 || exit 2
 if ! git -C "$W" apply "$P"; then echo "PATCH DOES NOT APPLY"; git -C /repo worktree remove --force "$W"; exit 2; fi
 cd /verif
 for c in "$@"; do
